@@ -300,4 +300,13 @@ Section RunP.
     - exists pid, k. rewrite Hd, X. reflexivity.
     - apply (try_strats_none V (t_id x) (t_strats x) 0%nat) in T. unfold task_fits in F. congruence.
   Qed.
+  (* a successful schedule is a successful run (in which no task was placed twice on one pool) *)
+  Lemma schedule_full_run P e pre now (c : cluster) offered ds cf :
+    schedule_full L P e pre now c offered = Ok (ds, cf) ->
+    run L P e now (virtual L P pre c) (ordered L P now offered) = Ok (ds, cf) /\ place_twice ds = false.
+  Proof.
+    unfold schedule_full. destruct (run L P e now (virtual L P pre c) (ordered L P now offered)) as [[ds' cf']|code];
+      cbn [bind fst]; [|discriminate].
+    destruct (place_twice ds') eqn:T; [discriminate|]. intros H. inversion H; subst. auto.
+  Qed.
 End RunP.
